@@ -40,7 +40,7 @@ func c02CheckStep(prefix string, r *v1beta1.Rollout, pre, post *v1beta1.CommonSt
 		verifrt.Cover("error-path")
 		return
 	}
-	expectedNext := util.NextBatchIndex(r, pre.CurrentStepIndex)
+	expectedNext := vNextStep(r, pre.CurrentStepIndex)
 	isJump := pre.NextStepIndex != expectedNext && pre.NextStepIndex > 0
 	if isJump {
 		verifrt.Cover("jump")
@@ -70,7 +70,7 @@ func c02CheckStep(prefix string, r *v1beta1.Rollout, pre, post *v1beta1.CommonSt
 		verifrt.Cover("index-advanced")
 		verifrt.Assert(preS == v1beta1.CanaryStepStateReady && post.CurrentStepIndex == pre.CurrentStepIndex+1 && postS == v1beta1.CanaryStepStateInit, prefix+".indexMovesOnlyFromReadyByOne")
 		// the persisted cursor does not fabricate a step-jump request: nextStepIndex follows the new current step
-		verifrt.Assert(post.NextStepIndex == util.NextBatchIndex(r, post.CurrentStepIndex), prefix+".advanceLeavesNoJumpRequestBehind")
+		verifrt.Assert(post.NextStepIndex == vNextStep(r, post.CurrentStepIndex), prefix+".advanceLeavesNoJumpRequestBehind")
 	}
 	// C04: a step without traffic that replaces every stable pod of a partition-style workload follows steps that may
 	// have pinned the stable Service: the workload is only touched (the BatchRelease is driven) after the clean-up in
@@ -361,7 +361,7 @@ func VerifC02_InitializingRecordsTheRevisionBeingReleased() {
 	verifrt.Assert(sub.StableRevision == w.StableRevision, "C02.initializing.recordsTheStableRevision")
 	verifrt.Assert(sub.CurrentStepIndex == 1 && sub.CurrentStepState == v1beta1.CanaryStepStateInit, "C02.initializing.startsAtTheFirstStepInInit")
 	verifrt.Assert(newStatus.CurrentStepIndex == 1 && newStatus.CurrentStepState == v1beta1.CanaryStepStateInit, "C02.initializing.topLevelCursorAgrees")
-	verifrt.Assert(sub.NextStepIndex == util.NextBatchIndex(r, 1), "C02.initializing.nextIndexFollowsTheSequence")
+	verifrt.Assert(sub.NextStepIndex == vNextStep(r, 1), "C02.initializing.nextIndexFollowsTheSequence")
 	if n >= 2 {
 		verifrt.Assert(sub.NextStepIndex == 2, "C02.initializing.nextIndexFollowsTheSequence")
 	} else {
